@@ -241,8 +241,11 @@ def judge(ctx: Ctx, case: dict[str, Any], sample: bool = False) -> None:
     offered = "none" if main[0] is None else ("both" if len(main[1]) == 2 else ("vgi" if "x-vgi-content-encoding" in main[1] else "std"))
     tag = f"k{(MAIN_KINDS + SIDE_KINDS).index(kind)}s{SETS.index(sset)}"
     coding: str | None = None
+    # negotiation does not depend on the response kind (keys carry no kind); announcing and body encoding differ
+    # between the post-hoc middleware path and the pre-compressed producer-continuation path (keys carry the path)
+    pth = "precompressed-path" if kind in ("prod-cont", "prod-final") else "posthoc-path"
     if len(announced) > 1:
-        ctx.fail(f"announced-on-both-headers:{kind}", f"more than one content-encoding announcement; {desc}", case)
+        ctx.fail(f"announced-on-both-headers:{pth}", f"more than one content-encoding announcement; {desc}", case)
         coding = announced[0][1]
     elif announced:
         coding = announced[0][1]
@@ -251,33 +254,33 @@ def judge(ctx: Ctx, case: dict[str, Any], sample: bool = False) -> None:
         ok = any(c == got[0] and (c is None or got[1] in hs) for c, hs in exp)
         if not ok:
             if any(c == got[0] for c, _ in exp):
-                ctx.fail(f"wrong-announcing-header:{kind}:offered-{offered}", f"coding {coding} announced on {got[1]}, where it was not offered; {desc}", case)
+                ctx.fail(f"wrong-announcing-header:{pth}:offered-{offered}", f"coding {coding} announced on {got[1]}, where it was not offered; {desc}", case)
             elif got[0] is None:
-                ctx.fail(f"not-compressed:{kind}:offered-{offered}", f"no coding applied although the model selects one; {desc}", case)
+                ctx.fail(f"not-compressed:{pth}:offered-{offered}", f"no coding applied although the model selects one; {desc}", case)
             elif all(c is None for c, _ in exp):
-                ctx.fail(f"compressed-against-model:{kind}:{'identity-first' if any(n == 'identity' for n, _ in parse(vgi) + parse(accept)) else 'no-overlap'}",
+                ctx.fail(f"compressed-against-model:{'identity-first' if any(n == 'identity' for n, _ in parse(vgi) + parse(accept)) else 'no-overlap'}",
                          f"coding {coding} applied although the model selects none; {desc}", case)
             else:
-                ctx.fail(f"wrong-coding:{kind}:offered-{offered}", f"coding {coding} is not the first producible entry in the client's order; {desc}", case)
+                ctx.fail(f"wrong-coding:offered-{offered}", f"coding {coding} is not the first producible entry in the client's order; {desc}", case)
     # body
     decoded: bytes | None = r.body
     if coding in ("zstd", "gzip"):
         ref = K.ref_decode(coding, r.body)
         decoded = ref.data if ref.ok else None
         if not ref.ok:
-            ctx.fail(f"body-not-{coding}:{kind}", f"body announced as {coding} is not a well-formed {coding} stream ({ref.why}); {desc}", case)
+            ctx.fail(f"body-not-{coding}:{pth}", f"body announced as {coding} is not a well-formed {coding} stream ({ref.why}); {desc}", case)
     elif coding is not None:
-        ctx.fail(f"unknown-coding-announced:{kind}", f"announced coding {coding!r}; {desc}", case)
+        ctx.fail(f"unknown-coding-announced:{pth}", f"announced coding {coding!r}; {desc}", case)
         decoded = None
     if decoded is not None and decoded != ref_body:
         c = canon(decoded)
         if c is None:
-            ctx.fail(f"body-undecodable:{kind}:{'announced-' + coding if coding else 'no-coding-announced'}",
+            ctx.fail(f"body-undecodable:{pth}:{'announced-' + coding if coding else 'no-coding-announced'}",
                      f"the decoded body is not a well-formed IPC stream; {desc}", case)
         elif c != ref_canon:
-            ctx.fail(f"body-differs:{kind}", f"the decoded body differs from the uncompressed reference response; {desc}", case)
+            ctx.fail(f"body-differs:{pth}", f"the decoded body differs from the uncompressed reference response; {desc}", case)
     if r.status != ref_status or r.get("x-vgi-rpc-error") != ref_err:
-        ctx.fail(f"status-differs:{kind}", f"status/error marker differ from the reference ({ref_status}, {ref_err}); {desc}", case)
+        ctx.fail(f"status-differs:{pth}", f"status/error marker differ from the reference ({ref_status}, {ref_err}); {desc}", case)
     ctx.case(
         sample=dict(case, coding=coding, header=announced[0][0] if announced else None, status=r.status) if sample else None,
         nontrivial=f"{tag}{(main[0] or 'no')[:2]}{offered[:2]}{len(exp)}",
